@@ -13,8 +13,10 @@ Definition schar (c : ascii) : N :=
   if b <? 128 then b else two64 - 256 + b.
 
 (* hash = character + (hash << 6) + (hash << 16) - hash   (mod 2^64) *)
+Definition mask64 : N := 18446744073709551615.
+(* N.land with 2^64-1 is reduction mod 2^64 (N.land_ones); h < 2^64 always holds here *)
 Definition hash_step (h : N) (c : ascii) : N :=
-  (schar c + h * 64 + h * 65536 + (two64 - h mod two64)) mod two64.
+  N.land (schar c + h * 64 + h * 65536 + (two64 - h)) mask64.
 
 Definition hash (s : str) : N := fold_left hash_step s 0.
 
